@@ -42,9 +42,9 @@ ASSUME /\ "str" \in Accepts("INT", FALSE) /\ "bool" \in Accepts("INT", FALSE) /\
        /\ RejectedUnder("REAL", "int") = <<>> /\ RejectedUnder("NULL", "int") = <<FALSE, TRUE>>
 
 \* nodes: every node of the value tree, pre-order; absent members have no node
-ASSUME /\ Len(Nodes(Env, S, SV)) = 12
+ASSUME /\ Len(Nodes(Env, S, SV)) = 13
        /\ Nodes(Env, S, SV)[1].pos = <<>>
-       /\ \E j \in 1..12 : Nodes(Env, S, SV)[j].pos = PosZ2
+       /\ \E j \in 1..13 : Nodes(Env, S, SV)[j].pos = PosZ2
        /\ Len(Nodes(Env, TRef("Rec"), RV)) = 6
        /\ ReachesNode(Env, S, SV, PosZ2) /\ ~ReachesNode(Env, S, SV, <<MStep("l"), IStep(3), MStep("z")>>)
        /\ ~ReachesNode(Env, S, SV, <<MStep("l"), IStep(1), MStep("o")>>)
